@@ -258,7 +258,7 @@ def history_stream(ctx, repo_src, root, lookups, langs, edits_spec, quick=True, 
 
 
 def exec_job(repo_src, scratch: pathlib.Path, name: str, runs, hashseed="0", fake_time=None, fake_step=1.0, timeout=600,
-             prelude=None):
+             prelude=None, extra_env=None):
     """Run one job in a fresh interpreter.  Returns the list of per-run results (or raises on worker failure)."""
     jobdir = scratch / "jobs"
     jobdir.mkdir(parents=True, exist_ok=True)
@@ -268,6 +268,11 @@ def exec_job(repo_src, scratch: pathlib.Path, name: str, runs, hashseed="0", fak
     env = {k: v for k, v in os.environ.items() if k not in ("PYTHONPATH", "PYTHONHASHSEED", "DSDL_INCLUDE_PATH")}
     env["PYTHONHASHSEED"] = str(hashseed)
     env["PYTHONDONTWRITEBYTECODE"] = "1"
+    for k, v in (extra_env or {}).items():      # ambient environment of this job (None = unset)
+        if v is None:
+            env.pop(k, None)
+        else:
+            env[k] = str(v)
     p = subprocess.run([PY, str(HERE), "--worker", str(jf)], env=env, capture_output=True, text=True, timeout=timeout,
                        cwd=str(scratch))
     if p.returncode != 0 or not rf.exists():
@@ -280,7 +285,7 @@ def exec_jobs(repo_src, scratch, jobs, max_workers=12):
     out = {}
     with concurrent.futures.ThreadPoolExecutor(max_workers=max_workers) as ex:
         futs = {ex.submit(exec_job, repo_src, scratch, j["name"], j["runs"], j.get("hashseed", "0"), j.get("fake_time"),
-                          j.get("fake_step", 1.0), j.get("timeout", 600), j.get("prelude")): j["name"] for j in jobs}
+                          j.get("fake_step", 1.0), j.get("timeout", 600), j.get("prelude"), j.get("env")): j["name"] for j in jobs}
         for f in concurrent.futures.as_completed(futs):
             try:
                 out[futs[f]] = f.result()
@@ -386,6 +391,25 @@ def run_translator(ctx, repo):
         ctx.broken.append({"kind": "translator", "translator": "tplflows", "error": info["error"]})
         return None
     return info
+
+
+# source facts whose details name what is wrong (fact -> key of the detail list in the translator's info)
+FACT_DETAILS = {"file_pp_calls_pure": "file_pp_state_writes", "line_pp_reset_complete": "line_pp_state_not_reset",
+                "file_pp_source_matches_model": "file_pp_source_diffs", "generator_runs_file_pps_once_in_order": "generator_pp_loop_problems",
+                "no_undeclared_ambient_inputs": "ambient_probes", "no_unlisted_shared_containers": "shared_containers",
+                "registered_callables_classified": "unclassified_callables", "registered_callables_as_expected": "unexpected_ambient_callables",
+                "no_unlisted_process_state": "process_state_unlisted"}
+
+
+def report_source_facts(ctx, info, names):
+    """A source fact that is false is a broken obligation of its own, with the offending places by name (the property module
+    that `decide`s the fact fails to build as well)."""
+    if info is None:
+        return
+    facts = info.get("facts") or {}
+    for n in names:
+        if n in facts and facts[n] is False:
+            ctx.broken.append({"kind": "source-fact", "fact": n, "details": (facts.get(FACT_DETAILS.get(n, "")) or [])[:12]})
 
 
 def parse_flags(ans: str) -> dict:
